@@ -24,6 +24,7 @@ from common import TRUSTED_BASE
 
 LEVEL = "other"
 MAX_FULL = 300          # the harness prints at most 300 trees per forest
+MAX_MODEL = 1500        # above this many real solutions the forest model is not run on the dumped SPPF (counted)
 MAX_ORACLE = 3000       # above this many real solutions the oracle is not run (counted)
 HEADER = "From RV Require Import Model.ForestCheck.\nOpen Scope nat_scope.\n"
 FLAGS = dict(sppf=1, ps=0, pse=0, go=0)
@@ -216,7 +217,7 @@ def input_terms(gname, d, w, pr):
         oracle = "c03_oracle_b %s %d %s %s %d %s %s" % (
             gname, h, gl_nats(kinds), gl_bool(ok), n, gl_list([gl_tree(t) for t in trees]), gl_bool(full))
     model = None
-    if pr["kind"] == "OK" and pr.get("sppf"):
+    if pr["kind"] == "OK" and pr.get("sppf") and n <= MAX_MODEL:
         gf, nn = gl_gforest(pr["sppf"])
         meta["sppf_nodes"] = nn
         model = "c03_model_b (%s) %d %s %s" % (gf, n, gl_list([gl_tree(t) for t in trees]), gl_bool(full))
@@ -349,7 +350,9 @@ def judge(fnd, base, w, pr, e, stats):
     m = e.get("model")
     if e.get("timeout"):
         stats["oracle_timeout"] = stats.get("oracle_timeout", 0) + 1
-    if pr["kind"] == "OK" and not pr.get("nomodel") and not e.get("timeout"):
+    if pr["kind"] == "OK" and not pr.get("nomodel") and not e.get("timeout") and pr["n"] > MAX_MODEL:
+        stats["model_skipped"] = stats.get("model_skipped", 0) + 1
+    elif pr["kind"] == "OK" and not pr.get("nomodel") and not e.get("timeout"):
         if m is None or len(m) != 7:
             fnd.add("coq-eval", "model answer missing", dict(base, input=inp, answer=m), found_input=False)
         else:
@@ -736,7 +739,7 @@ def run(rep, tier, seed):
         shapes=shapes, inputs_accepted=n_ok, inputs_rejected=n_err, inputs_ambiguous=n_amb,
         inputs_with_elided_children=n_rn, trees_compared=n_trees, max_solutions=max_solutions,
         inputs_by_length=bylen, oracle_skipped_too_many_solutions=stats["oracle_skipped"],
-        oracle_shards_timed_out_inputs=stats.get("oracle_timeout", 0),
+        oracle_shards_timed_out_inputs=stats.get("oracle_timeout", 0), model_skipped_too_many_solutions=stats.get("model_skipped", 0),
         uncertified_height_bound=stats["uncertified"], model_forests_checked=stats["model_checked"],
         phase_seconds=dict(zip(["probe", "scope-coq", "real-glr", "oracle-coq"], [round(b - a, 1) for a, b in zip(T, T[1:])])),
         samples=samples)
